@@ -14,7 +14,10 @@ CONSTRAINT_SETS = [None, None, [1, 2], [0, 1, 2], [3, 4, 5], [0, 1, 2, 3, 4, 5],
 def rod_spec(draw, max_nel=4, allow_constraints=True, dynamic=False):
     interp = draw(st.sampled_from(["Quaternion", "SE3", "R12"]))
     mixed = draw(st.booleans())
-    cons = draw(st.sampled_from(CONSTRAINT_SETS)) if allow_constraints else None
+    # a named set, or any non-empty subset of the six strain components
+    cons = None
+    if allow_constraints:
+        cons = draw(st.sampled_from(CONSTRAINT_SETS)) if draw(st.booleans()) else sorted(draw(st.sets(st.integers(0, 5), min_size=1, max_size=6)))
     degree = 1 if interp == "SE3" else draw(st.sampled_from([1, 2, 2, 3]))
     nel = draw(st.integers(1, max_nel))
     quadratic_only = mixed or cons is not None
